@@ -149,6 +149,14 @@ func (Engine) Generate(prop string, r *kit.Rand, tier string) *kit.Scenario[Conf
 			}
 			sc.Ops = append(sc.Ops, o)
 		}
+		if r.Chance(0.3) {
+			// a reader looks a prefix up while a writer's transaction is open (what a discovery Interest does that
+			// arrives while Produce is at work), and again after the commit
+			k := kit.Pick(r, []int{4, 5})
+			pfx := "/s/a/32=metadata"
+			sc.Ops = append(sc.Ops, Op{Op: "storeop", SOp: "begin"}, Op{Op: "storeop", SOp: "put", SName: names[k], SVer: uint64(k - 3)},
+				Op{Op: "storeop", SOp: "getprefix", SName: pfx}, Op{Op: "storeop", SOp: "commit"}, Op{Op: "storeop", SOp: "getprefix", SName: pfx})
+		}
 	}
 	// a large object's worth of packets under one prefix, removed by prefix later (the stores' scans are long then)
 	if r.Chance(0.02) {
@@ -1152,7 +1160,8 @@ func (e Engine) storeOp(ctx *kit.Ctx, o *Op, mem *object.MemoryStore, bolt *obje
 		}
 	case "get":
 		if sm.inTx && (pendingUnder(o.SName, false) || len(sm.deferredBolt) > 0) {
-			return // visibility of uncommitted writes is not specified
+			get(false) // visibility of uncommitted writes is not specified; the lookup happens all the same
+			return
 		}
 		a, b := get(false)
 		want := ms[o.SName].wire
@@ -1164,6 +1173,10 @@ func (e Engine) storeOp(ctx *kit.Ctx, o *Op, mem *object.MemoryStore, bolt *obje
 		}
 	case "getprefix":
 		if sm.inTx && (pendingUnder(o.SName, true) || len(sm.deferredBolt) > 0) {
+			// what this lookup sees is not specified (visibility of uncommitted writes) - but it happens, and
+			// lookups after the commit must not be affected by it
+			get(true)
+			ctx.Probe("store/lookup-inside-transaction")
 			return
 		}
 		a, b := get(true)
